@@ -4,7 +4,7 @@
 From Coq Require Import Sorting.Sorted Sorting.Permutation.
 From Sdns Require C02.Model C02.Proofs_Gen.
 From Sdns Require Import Common.Base Common.GoList Gen.C14 C14.Model
-  C14.Proofs_rsa C14.Proofs_b64 C14.Proofs_keytag C14.Proofs_rsamd5 C14.Proofs_canon C14.Proofs_verify C14.Proofs_offset C14.Proofs_walk C14.Proofs_loops C14.Proofs_c02 C14.Proofs_synth C14.Proofs_ds.
+  C14.Proofs_rsa C14.Proofs_b64 C14.Proofs_keytag C14.Proofs_rsamd5 C14.Proofs_canon C14.Proofs_verify C14.Proofs_offset C14.Proofs_walk C14.Proofs_loops C14.Proofs_c02 C14.Proofs_synth C14.Proofs_ds C14.Proofs_sig C14.Proofs_match.
 Open Scope N_scope.
 
 (* (1) Key tag.  For every DNSKEY of every algorithm but RSAMD5 and every key
@@ -310,6 +310,76 @@ Theorem ds_matched_keys_are_vouched_for : forall (H : N -> list N -> list N) km 
 Proof. exact ds_matched_keys_sound. Qed.
 Print Assumptions ds_matched_keys_are_vouched_for.
 
+(* (6c) The RRSIG side of verify.go in the order of the code (session 5).  verifyOneSig as coded — the tests in
+   their order, the eligible candidate keys de-duplicated by identity, tried in ascending identity order, the error
+   of the last one kept — returns nil exactly when the verdict model of (6) accepts: for every key map (buckets with
+   repeated, mis-filed, same-tag keys in any order), every RRset, every signature: repetition and order of the
+   candidate keys only select WHICH error is returned. *)
+Theorem candidate_key_order_and_repetition_only_select_the_error :
+  forall H ECP ECV EDV LIBV keys set s valid,
+  (verify_one_sig_code H ECP ECV EDV LIBV keys set s valid =? 0) = verify_one_sig H ECP ECV EDV LIBV keys set s valid.
+Proof. exact verify_one_sig_code_verdict. Qed.
+Print Assumptions candidate_key_order_and_repetition_only_select_the_error.
+
+(* and which error: one of nil / 1 ErrMissingSigned / 2 ErrMissingDNSKEY / 3 dns.ErrSig / 4 a packing error /
+   5 ErrInvalidSignaturePeriod / 6 dns.ErrAlg, decided by the first test that fails in the order of the code:
+   "no key" when the bucket of the signature's tag holds no key of the signer's name; then "validity period" for a
+   signature outside its period (and only then); then "algorithm" for an algorithm outside the supported set (and only
+   then); then "missing signed" when the signature does not fit the RRset; a bad-signature or packing error is what
+   this package's verifier said about one usable candidate key of the bucket. *)
+Theorem verify_one_sig_error_is_the_first_failing_test :
+  forall H ECP ECV EDV LIBV keys set s valid,
+  let c := verify_one_sig_code H ECP ECV EDV LIBV keys set s valid in
+  let named := exists tag cands k, find (fun p => fst p =? s_keytag s) keys = Some (tag, cands) /\ In k cands
+                 /\ equal_fold (s_signer s) (k_name k) = true in
+  In c [0; 1; 2; 3; 4; 5; 6] /\
+  (~ named -> c = 2) /\
+  (named -> valid = false -> c = 5) /\
+  (named -> valid = true -> is_supported_dnskey_alg (s_alg s) = false -> c = 6) /\
+  (named -> valid = true -> is_supported_dnskey_alg (s_alg s) = true -> signature_matches_rrset s set = false -> c = 1) /\
+  (c = 5 -> named /\ valid = false) /\
+  (c = 6 -> named /\ valid = true /\ is_supported_dnskey_alg (s_alg s) = false) /\
+  (c = 3 \/ c = 4 -> exists tag cands k, In (tag, cands) keys /\ tag = s_keytag s /\ In k cands /\
+      usable_signature_candidate s k = true /\ verify_signature H ECP ECV EDV k s set = c).
+Proof. exact verify_one_sig_code_values. Qed.
+Print Assumptions verify_one_sig_error_is_the_first_failing_test.
+
+(* VerifyRRSIG as coded — RRsets walked in ascending (owner, type, class) order, the signatures of an RRset
+   de-duplicated by identity (uniqueSortedRRSIGs), tried in ascending identity order, the error of the last one
+   kept, each through verifyOneSig as coded — returns (true, nil) exactly when the verdict model of the walk
+   accepts: for every signer, key map and message, repetition and order of signatures, candidate keys and RRsets only
+   select WHICH error is returned.  For signatures whose owner and signer are fully qualified (every name out of the
+   wire decoder is; sig_order_needs_fqdn_signers in Proofs_examples.v shows the hypothesis is needed) and whose
+   ValidityPeriod(now) bit is the same for two signatures of one identity (the identity holds inception and
+   expiration). *)
+Theorem signature_and_rrset_order_and_repetition_only_select_the_error :
+  forall H ECP ECV EDV LIBV signer keys answer ns,
+  (forall sv, In sv (walk_sigs answer ns) -> is_fqdn (s_name (fst sv)) = true /\ is_fqdn (s_signer (fst sv)) = true) /\
+  (forall a b, In a (walk_sigs answer ns) -> In b (walk_sigs answer ns) -> sv_same a b = true -> snd a = snd b) ->
+  (verify_rrsig_code H ECP ECV EDV LIBV signer keys answer ns =? 0) = verify_rrsig H ECP ECV EDV LIBV signer keys answer ns.
+Proof. exact verify_rrsig_code_verdict. Qed.
+Print Assumptions signature_and_rrset_order_and_repetition_only_select_the_error.
+
+(* and which error VerifyRRSIG returns: "no key" for an empty key map; else nil, or "missing signed" for an answer
+   record outside the signer zone, or "no signatures" for a message with records to validate and no RRSIG at all, or
+   — for some RRset that takes part — "missing signed" when no in-zone RRSIG of the message covers it or its records
+   spell the owner differently, else the error verifyOneSig gave for one covering signature of the message. *)
+Theorem verify_rrsig_error_is_one_of_the_documented :
+  forall H ECP ECV EDV LIBV signer keys answer ns,
+  let c := verify_rrsig_code H ECP ECV EDV LIBV signer keys answer ns in
+  (keys = [] /\ c = 2) \/
+  (keys <> [] /\
+   (c = 0 \/
+    (c = 1 /\ exists r, In r (walk_answer signer answer ns) /\ walk_in_zone signer r = false) \/
+    (c = 7 /\ walk_records signer answer ns <> [] /\ walk_sigs answer ns = []) \/
+    (walk_sigs answer ns <> [] /\ exists r, In r (walk_records signer answer ns) /\
+       ((c = 1 /\ ((forall sv, In sv (walk_sigs answer ns) -> sig_covers (walk_zone signer) (fst sv) r = false)
+                    \/ is_rrset (walk_group signer answer ns r) = false)) \/
+        exists sv, In sv (walk_sigs answer ns) /\ sig_covers (walk_zone signer) (fst sv) r = true /\
+          verify_one_sig_code H ECP ECV EDV LIBV keys (walk_group signer answer ns r) (fst sv) (snd sv) = c /\ c <> 0)))).
+Proof. exact verify_rrsig_code_values. Qed.
+Print Assumptions verify_rrsig_error_is_one_of_the_documented.
+
 (* (7) Source ties.  The loops and byte-level helpers of the Go code, as the translator reads them
    from /repo on every run (Gen/C14.v), compute what the model's functions compute: a change of the
    Go loop changes the generated Fixpoint, and these are re-checked against it.  Budgets (fuel) are
@@ -369,6 +439,37 @@ Theorem name_in_zone_is_model : forall fuel name zone, (length name < fuel)%nat 
   go_NameInZone fuel name zone = Some (name_in_zone name zone).
 Proof. exact gen_name_in_zone. Qed.
 Print Assumptions name_in_zone_is_model.
+
+(* signatureMatchesRRset AS THE CODE HAS IT (session 5): the function translated from verify.go over dns.RR as a sum type —
+   with dns.IsRRset and dns.CountLabel translated from the module cache, dnsutil.NameInZone from the repository,
+   dns.CanonicalName / dns.Fqdn / strings.ToLower / strings.EqualFold in their ASCII readings — is total within the stated
+   budget and computes the model's signature_matches_rrset, for every signature and every list of records (of any
+   dynamic type: a record enters through its header) whose first owner is an escape-free name.  On the way: dns.IsRRset as
+   translated is the model's is_rrset for every list; the ASCII reading of dns.IsFqdn (a final dot behind an even number of
+   backslashes) is the model's forward-scanning is_fqdn for every string; dns.CountLabel as translated is the model's
+   count_label on escape-free names.  (Owners with escapes: the second theorem, with dns.CountLabel's result as a
+   hypothesis — CaseName ties that to count_label on every run.) *)
+Theorem translated_signature_matches_rrset_is_model : forall fuel s set,
+  (forall h0 t, set = h0 :: t -> exists o, C02.Proofs_Gen.plain_name o /\ r_name h0 = C02.Proofs_Gen.present o /\
+                                            (length (r_name h0) + 1 < fuel)%nat) ->
+  go_signatureMatchesRRset fuel (sig_rec s) (map rr_iface set) = Some (signature_matches_rrset s set).
+Proof. exact gen_signature_matches_rrset_plain. Qed.
+Print Assumptions translated_signature_matches_rrset_is_model.
+
+Theorem translated_signature_matches_rrset_is_model_given_count_label : forall fuel s set,
+  (forall h0 t, set = h0 :: t -> (length (r_name h0) + 1 < fuel)%nat /\
+                                 go_CountLabel fuel (r_name h0) = Some (Z.of_N (count_label (r_name h0)))) ->
+  go_signatureMatchesRRset fuel (sig_rec s) (map rr_iface set) = Some (signature_matches_rrset s set).
+Proof. exact gen_signature_matches_rrset. Qed.
+Print Assumptions translated_signature_matches_rrset_is_model_given_count_label.
+
+Theorem translated_is_rrset_is_model : forall set, go_IsRRset (map rr_iface set) = is_rrset set.
+Proof. exact gen_is_rrset. Qed.
+Print Assumptions translated_is_rrset_is_model.
+
+Theorem ascii_is_fqdn_is_model : forall s, go_is_fqdn_ascii s = is_fqdn s.
+Proof. exact is_fqdn_ascii_is_model. Qed.
+Print Assumptions ascii_is_fqdn_is_model.
 
 (* internal/dnsname.CompareSuffix: the model's compare_suffix IS the translated Go function (with dns.CountLabel,
    dns.NextLabel and equalFold translated from the module cache) run with a budget it cannot exhaust; C02's
